@@ -133,7 +133,7 @@ def neutral(props, base):
     # changing behaviour (403 tests + rendered-output comparison); where a rule still answers UNDECIDED on such a restructuring the property is listed
     # as a known limit of that rule (DESIGN section 7) instead of being silently dropped from the run
     patches = [("edits", "edits.diff", ()), ("clippy-fix", "clippy_fix.diff", ())]
-    patches += [("refactor-N%d" % i, "refactor_N%d.diff" % i, ()) for i in range(1, 19)]  # three campaigns of six agent-written refactorings; no known limit left
+    patches += [("refactor-N%d" % i, "refactor_N%d.diff" % i, ()) for i in range(1, 25)]  # four campaigns of six agent-written refactorings; no known limit left
     limits = {}
     for name, fn, skip in patches:
         limits[name] = set(skip)
